@@ -769,6 +769,26 @@ class G:
             self.emit("l2cksum %s" % y)
             self.emit("add %s %d" % (y, self.val_near(keys)))
             self.emit("eq %s %s" % (x, y))
+        # Equals between the SAME set reached through different histories: consecutive ranges united in place / statically / in the
+        # other order / built directly / shifted across a chunk edge — in both operand orders of Equals
+        for k in (0, 9):
+            base = k * CH
+            a, b, c = self.fresh("eqh"), self.fresh("eqh"), self.fresh("eqh")
+            self.emit("new %s" % a); self.emit("addr %s %d %d" % (a, base + 100, base + 4465)); self.emit("opt %s" % a)
+            self.emit("new %s" % b); self.emit("addr %s %d %d" % (b, base + 4465, base + 9000)); self.emit("addr %s %d %d" % (b, base + 20000, base + 20010)); self.emit("opt %s" % b)
+            self.emit("new %s" % c); self.emit("addr %s %d %d" % (c, base + 100, base + 9000)); self.emit("addr %s %d %d" % (c, base + 20000, base + 20010)); self.emit("opt %s" % c)
+            forms = []
+            z = self.fresh("eqh"); self.emit("clone %s %s" % (z, a)); self.emit("ior %s %s" % (z, b)); forms.append(z)
+            z = self.fresh("eqh"); self.emit("clone %s %s" % (z, b)); self.emit("ior %s %s" % (z, a)); forms.append(z)
+            z = self.fresh("eqh"); self.emit("or %s %s %s" % (z, a, b)); forms.append(z)
+            z = self.fresh("eqh"); self.emit("or %s %s %s" % (z, b, a)); forms.append(z)
+            z0 = self.fresh("eqh"); self.emit("off %s %s %d" % (z0, c, -4465 - 100)); z = self.fresh("eqh"); self.emit("off %s %s %d" % (z, z0, 4465 + 100)); forms.append(z)
+            for z in forms:
+                self.emit("eq %s %s" % (z, c)); self.emit("eq %s %s" % (c, z))
+                self.emit("l2cksum %s" % z)
+            for i in range(len(forms) - 1):
+                self.emit("eq %s %s" % (forms[i], forms[i + 1]))
+            self.count("query:fixed-equals-across-histories")
         # range queries whose START lies in an unpopulated chunk and whose END chunk is the first populated one / has populated
         # chunks in between, with every order of the low 16 bits of start, end and the stored values
         for kind in ("A", "R", "B"):
